@@ -49,6 +49,13 @@ pub fn instantiate(
     // add all voters
     for voter in msg.voters.iter() {
         let key = deps.api.addr_validate(&voter.addr)?;
+        // total_weight above counts every entry, so an address listed twice would
+        // make it exceed the sum of the stored voter weights
+        if VOTERS.has(deps.storage, &key) {
+            return Err(ContractError::DuplicateVoter {
+                addr: voter.addr.clone(),
+            });
+        }
         VOTERS.save(deps.storage, &key, &voter.weight)?;
     }
     Ok(Response::default())
